@@ -338,6 +338,19 @@ class Gen:
                 c = self.bool_expr(env, 2, SAFE)
             env.join(e1, e2)
             return ('if', c, t, f)
+        if x < 0.57 and not env.pure_only and 'get' in self.sys:
+            # classify an input byte: the branch taken depends on more than the low bits of what was read
+            env.me.io = True
+            rd = ('syscall', self.callee('get'), [self.stream_expr(STREAMS_IN)])
+            k = lit(r.choice([0, 1, 100, 127, 128, 129, 200, 254, 255, 256]))
+            op = r.choice(['<', '=', '>=', '>', '~=', '<='])
+            c = ('bin', op, rd, k) if r.random() < 0.7 else ('bin', op, ('bin', r.choice('+-'), rd, lit(r.randint(0, 3))), k)
+            e1 = env.fork()
+            e2 = env.fork()
+            t = self.stmt(e1, d - 1)
+            f = self.stmt(e2, d - 1)
+            env.join(e1, e2)
+            return ('if', c, t, f)
         if x < 0.66 and env.counters:
             return self.counter_loop(env, d)
         if x < 0.72 and env.counters:
@@ -546,7 +559,7 @@ class Gen:
         P = dict(globals=gl, procs=procs)
         # input: straddles "fewer bytes than the program reads" and "more"
         n = r.randint(0, 8)
-        inp = bytes(r.choice([0, 1, 48, 97, 127, 128, 255, r.randrange(256)]) for _ in range(n))
+        inp = bytes(r.choice([0, 1, 48, 97, 127, 128, 129, 200, 254, 255, r.randrange(256)]) for _ in range(n))
         files = {}
         for f in sorted(self.used_in_files):
             files[f] = bytes(r.randrange(256) for _ in range(r.randint(0, 5)))
